@@ -807,7 +807,11 @@ class Fingerprint(object):
         return self.__add__(other)
 
     def __rsub__(self, other):
-        return self.__sub__(other)
+        if not isinstance(other, Fingerprint):
+            raise E3FPInvalidFingerprintError(
+                "variable is %s not Fingerprint" % (other.__class__.__name__)
+            )
+        return Fingerprint.__sub__(other, self)
 
     def __rand__(self, other):
         return self.__and__(other)
